@@ -438,7 +438,7 @@ err_t bpkiShareWrap(octet epki[], size_t* epki_len, const octet share[],
 		return ERR_BAD_INPUT;
 	if (share_len != 17 && share_len != 25 && share_len != 33 ||
 		share && (!memIsValid(share, 1) || share[0] == 0 || share[0] > 16))
-		return ERR_BAD_SECKEY;
+		return ERR_BAD_SHAREKEY;
 	// определить длину epki
 	pki_len = bpkiShareEnc(0, share, share_len);
 	if (pki_len == SIZE_MAX)
